@@ -1237,7 +1237,8 @@ func toString(v interface{}) string {
 		return val.String()
 	}
 
-	return fmt.Sprintf("%v", v)
+	// Anything else is printed like %v, but without memory addresses
+	return stableString(v)
 }
 
 func toInt(v interface{}) (int, error) {
@@ -1400,8 +1401,9 @@ func (e *CoreExtension) filterFirst(value interface{}, args ...interface{}) (int
 		}
 		return nil, nil
 	case map[string]interface{}:
-		for _, val := range v {
-			return val, nil // Return first value found
+		// The first element is the one a for loop visits first (fixed key order)
+		for _, key := range sortedMapKeys(reflect.ValueOf(v)) {
+			return v[key.String()], nil
 		}
 		return nil, nil
 	}
@@ -1420,8 +1422,8 @@ func (e *CoreExtension) filterFirst(value interface{}, args ...interface{}) (int
 		}
 		return nil, nil
 	case reflect.Map:
-		for _, key := range rv.MapKeys() {
-			return rv.MapIndex(key).Interface(), nil // Return first value found
+		for _, key := range sortedMapKeys(rv) {
+			return rv.MapIndex(key).Interface(), nil // First value in the fixed key order
 		}
 		return nil, nil
 	}
@@ -1715,7 +1717,7 @@ func (e *CoreExtension) filterKeys(value interface{}, args ...interface{}) (inte
 	if rv.Kind() == reflect.Map {
 		// For maps, return the keys as a slice of the same type as the keys
 		keys := make([]interface{}, 0, rv.Len())
-		for _, key := range rv.MapKeys() {
+		for _, key := range sortedMapKeys(rv) {
 			if key.CanInterface() {
 				keys = append(keys, key.Interface())
 			}
